@@ -15,6 +15,7 @@ AR_CPP = 'src/tbb/arena.cpp'
 FGJ_H = 'include/oneapi/tbb/detail/_flow_graph_join_impl.h'
 FG_H = 'include/oneapi/tbb/flow_graph.h'
 IB_H = 'include/oneapi/tbb/detail/_flow_graph_item_buffer_impl.h'
+PFE_H = 'include/oneapi/tbb/parallel_for_each.h'
 FGN_H = 'include/oneapi/tbb/detail/_flow_graph_node_impl.h'
 FGC_H = 'include/oneapi/tbb/detail/_flow_graph_cache_impl.h'
 CPQ_H = 'include/oneapi/tbb/concurrent_priority_queue.h'
@@ -37,6 +38,68 @@ CM_H = 'src/tbb/concurrent_monitor.h'
 CQ_H = 'include/oneapi/tbb/concurrent_queue.h'
 
 MUTANTS = [
+    dict(name='c19-seed-waiter-leaves-on-uninitialized', prop='C19', clause='D1', edits=[(CO_H, "        } while (expected != state::done);", "        } while (expected > state::done);")]),
+    dict(name='c15-seed-limiter-double-decrement', prop='C15', clause='D1', edits=[(FG_H, """                if( my_tries > 0 ) {
+                    my_future_decrement += (size_t(delta) - my_count);
+                }
+                my_count = 0;""", """                my_count = 0;
+                if( my_tries > 0 ) {
+                    my_future_decrement += (size_t(delta) - my_count);
+                }""")]),
+    dict(name='c16-seed-execution-data-restored-conditionally', prop='C16', clause='D7', edits=[(AR_CPP, """            __TBB_ASSERT(td.my_inbox.is_idle_state(false), nullptr);
+        }
+        td.my_task_dispatcher->m_execute_data_ext = m_orig_execute_data_ext;""", """            __TBB_ASSERT(td.my_inbox.is_idle_state(false), nullptr);
+            td.my_task_dispatcher->m_execute_data_ext = m_orig_execute_data_ext;
+        }""")]),
+    dict(name='c11-seed-stale-table-snapshot-in-wait', prop='C11', clause='D7', edits=[(CV_H, """        for (segment_index_type seg_idx = 0; seg_idx <= end_segment; ++seg_idx) {
+            if (this->get_table()[seg_idx].load(std::memory_order_relaxed) == nullptr) {
+                atomic_backoff backoff(true);
+                while (this->get_table()[seg_idx].load(std::memory_order_relaxed) == nullptr) {""", """        segment_table_type table = this->get_table();
+        for (segment_index_type seg_idx = 0; seg_idx <= end_segment; ++seg_idx) {
+            if (table[seg_idx].load(std::memory_order_relaxed) == nullptr) {
+                atomic_backoff backoff(true);
+                while (table[seg_idx].load(std::memory_order_relaxed) == nullptr) {""")]),
+    dict(name='c13-seed-sift-down-into-tail', prop='C13', clause='D4', edits=[(CPQ_H, """        while(child < mark) {
+            size_type target = child;
+            if (child + 1 < mark && my_compare(data[child], data[child + 1]))""", """        const size_type last = data.size() - 1;
+        while(child < last) {
+            size_type target = child;
+            if (child + 1 < last && my_compare(data[child], data[child + 1]))""")]),
+    dict(name='c13-sibling-beyond-mark', prop='C13', clause='D4', edits=[(CPQ_H, "            if (child + 1 < mark && my_compare(data[child], data[child + 1]))", "            if (child + 1 < data.size() && my_compare(data[child], data[child + 1]))")]),
+    dict(name='c03-for-each-forward-reserve-before-block-task', prop='C03', clause='D9', edits=[(PFE_H, """        small_object_allocator alloc{};
+        auto block_handling_task = alloc.new_object<block_handling_type>(ed, first_block_element, block_size,
+                                                                         this->my_wait_context, this->my_execution_context,
+                                                                         this->my_body, this->my_feeder_holder.feeder_ptr(), alloc);
+
+        // Take the reference for the block task only when it exists (copying the user's iterator can throw),
+        // it is released in finalize()
+        this->my_wait_context.reserve();
+""", """        this->my_wait_context.reserve();
+        small_object_allocator alloc{};
+        auto block_handling_task = alloc.new_object<block_handling_type>(ed, first_block_element, block_size,
+                                                                         this->my_wait_context, this->my_execution_context,
+                                                                         this->my_body, this->my_feeder_holder.feeder_ptr(), alloc);
+
+""")]),
+    dict(name='c03-for-each-input-unguarded-item-copy', prop='C03', clause='D9', edits=[(PFE_H, """        try_call( [&] {
+            for (; !(this->my_first == this->my_last) && block_handling_task->my_size < block_handling_type::max_block_size; ++this->my_first) {
+                // Move semantics are automatically used when supported by the iterator
+                new (block_iterator++) Item(*this->my_first);
+                ++block_handling_task->my_size;
+            }
+        } ).on_exception( [&] {
+            alloc.delete_object(block_handling_task, ed);
+        } );
+
+        // Take the reference for the block task only when nothing can fail anymore, it is released in finalize()
+        this->my_wait_context.reserve();
+""", """        this->my_wait_context.reserve();
+        for (; !(this->my_first == this->my_last) && block_handling_task->my_size < block_handling_type::max_block_size; ++this->my_first) {
+            // Move semantics are automatically used when supported by the iterator
+            new (block_iterator++) Item(*this->my_first);
+            ++block_handling_task->my_size;
+        }
+""")]),
     dict(name='c07-seed-ring-one-slot-short', prop='C07', clause='D5', edits=[(PP_CPP, "                grow( token-low_token+1 );", "                grow( token-low_token );")]),
     dict(name='c07-ring-store-unguarded', prop='C07', clause='D5', edits=[(PP_CPP, "            if( token-low_token>=array_size )\n                grow( token-low_token+1 );", "            if( token-low_token>array_size )\n                grow( token-low_token+1 );")]),
     dict(name='c07-grow-does-not-reach-minimum', prop='C07', clause='D5', edits=[(PP_CPP, "    while( new_size<minimum_size )\n        new_size*=2;", "    if( new_size<minimum_size )\n        new_size*=2;")]),
@@ -803,6 +866,18 @@ MUTANTS = [
 ]
 
 BENIGN = [
+    dict(name='c11-b-snapshot-refreshed-in-wait', prop='C11', edits=[(CV_H, """                while (this->get_table()[seg_idx].load(std::memory_order_relaxed) == nullptr) {
+                    backoff.pause();""", """                segment_table_type table = this->get_table();
+                while (table[seg_idx].load(std::memory_order_relaxed) == nullptr) {
+                    backoff.pause();
+                    table = this->get_table();""")]),
+    dict(name='c19-b-exit-on-equal-done', prop='C19', edits=[(CO_H, "        } while (expected != state::done);", "        } while (!(expected == state::done));")]),
+    dict(name='c13-b-mark-in-local', prop='C13', edits=[(CPQ_H, """        while(child < mark) {
+            size_type target = child;
+            if (child + 1 < mark && my_compare(data[child], data[child + 1]))""", """        const size_type heap_end = mark;
+        while(child < heap_end) {
+            size_type target = child;
+            if (child + 1 < heap_end && my_compare(data[child], data[child + 1]))""")]),
     dict(name='c07-b-grow-more', prop='C07', edits=[(PP_CPP, "                grow( token-low_token+1 );", "                grow( token-low_token+2 );")]),
     dict(name='c01-b-static-cast-arbitration', prop='C01', edits=[(AS_CPP,
         "if ( (std::intptr_t)( head.load(std::memory_order_acquire) ) > (std::intptr_t)T ) {",
